@@ -300,7 +300,10 @@ calls:
   - name: "c3"
     tag: "order"
     call: "target.TargetService.Order"
-    payload: '{"user_id": 7, "item_id": 9, "token": "{{.request.c1.preprocessor.u}}"}'
+    payload: '{"user_id": 7, "item_id": 9, "token": "{{.request.c3.preprocessor.u}}"}'
+    preprocessors:
+      - type: "prepare"
+        mapping: {"u": "request.c1.postprocessor.hello"}
 scenarios:
   - name: "s1"
     weight: 1
@@ -333,9 +336,16 @@ scenarios:
 		fail("run-error", "run ended with %v", rr.Err)
 		return
 	}
-	var rowsUsed []string
+	var rowsUsed, orderRows []string
 	for _, call := range tgt.Calls() {
 		if o, ok := call.Req.(*server.OrderRequest); ok {
+			// the third call has a preprocessor variable of its own that bears the same name ("u")
+			// as the first call's but is mapped to the first call's response
+			if strings.HasPrefix(o.Token, "Hello ") && strings.HasSuffix(o.Token, "!") {
+				orderRows = append(orderRows, strings.TrimSuffix(strings.TrimPrefix(o.Token, "Hello "), "!"))
+			} else {
+				fail("preprocessor-variable", "call Order maps its variable u to the Hello response of its shot (\"Hello <row>!\"); the server received token %q", o.Token)
+			}
 			// the third call declares no metadata: none of the earlier calls' keys may come with it
 			for _, k := range []string{"x-row", "x-static"} {
 				if v := call.MD.Get(k); len(v) > 0 {
@@ -376,6 +386,10 @@ scenarios:
 	sort.Strings(want)
 	if fmt.Sprint(rowsUsed) != fmt.Sprint(want) {
 		fail("rows", "rows used %v, want consecutive rows round-robin %v", rowsUsed, want)
+	}
+	sort.Strings(orderRows)
+	if fmt.Sprint(orderRows) != fmt.Sprint(rowsUsed) {
+		fail("preprocessor-variable", "the Order calls carry the Hello responses of rows %v, the Hello calls were made for rows %v", orderRows, rowsUsed)
 	}
 	if n := len(aggr.Snapshot()); n != 3*c.Shots {
 		fail("samples", "%d samples for %d shots of 3 calls", n, c.Shots)
